@@ -114,6 +114,29 @@ def cases(rng, tier):
             den = rng.choice([4, 8, 16])
             fam = rng.choice(["A", "M", "D", "N", "D", "N"])
             out += one(rng, fmt, n1, n2, 3, den, fam, rng.choice(["o", "r"]), tables=irrelevant_parent_tables(rng, n1, n2, den))
+        # a base rate on Y with one SMALL entry (2^-k): a joint cell that is possible only under that y has a marginal base rate of the
+        # order 2^-k, and the positive rounding residue that the products leave in exactly-zero joint masses (p - a*u, clamped only from
+        # below) is a relative perturbation eps / 2^-k of it, which the final inversion divides through: values off by eps / min ay
+        # (third bug hunt, C11 / C15 / C16 hunters; recorded finding `equals_composition`, not repaired: the remedy is a cancellation-free
+        # form of the joint masses, b0*b1 + a*(c - u))
+        for _ in range(N // 6):
+            n1, n2, m = rng.choice([2, 3]), rng.choice([2, 3]), rng.choice([2, 3])
+            den = rng.choice([4, 8, 16])
+            fam = rng.choice(["A", "M", "D", "N"])
+            pair = one(rng, fmt, n1, n2, m, den, fam, rng.choice(["o", "r"]), impossible=rng.random() < 0.3)
+            k = rng.randint(10, 40) if fmt == "f64" else rng.randint(7, 20)
+            fixed = []
+            for ln, meta in pair:
+                t = ln.split(" ")
+                ay = [G.decode(fmt, x) for x in t[-m:]]
+                j = max(range(m), key=lambda i: ay[i])
+                i0 = (j + 1) % m
+                ay2 = list(ay)
+                ay2[j] = ay[j] + ay[i0] - Fr(1, 2 ** k)
+                ay2[i0] = Fr(1, 2 ** k)
+                # not a "pair" for the transposition relation: the two parent orders differ by the same eps / min ay
+                fixed.append((" ".join(t[:-m] + [G.hx(fmt, v) for v in ay2]), ("small_ay",) + tuple(meta[1:])))
+            out += fixed
     return out
 
 
